@@ -29,17 +29,25 @@ EMITTERS = {
     "call_indirect": ("wasmCWriteCallIndirectExpr", [("p2r1", ["NPAR=2", "NRES=1"]), ("p0r1", ["NPAR=0", "NRES=1"]), ("p3r0", ["NPAR=3", "NRES=0"]), ("p1r1", ["NPAR=1", "NRES=1"]), ("p0r0", ["NPAR=0", "NRES=0"])]),
     "br": ("wasmCWriteBranchExpr", [("copy", ["BR_CLASS=0"]), ("inplace", ["BR_CLASS=1"]), ("novalue", ["BR_CLASS=2"])]),
     "br_if": ("wasmCWriteBranchIfExpr", [("copy", ["BR_CLASS=0"]), ("inplace", ["BR_CLASS=1"]), ("novalue", ["BR_CLASS=2"])]),
+    "global_get": ("wasmCWriteGlobalGetExpr", GENERIC), "global_set": ("wasmCWriteGlobalSetExpr", GENERIC),
+    "memory_size": ("wasmCWriteMemorySizeExpr", GENERIC), "memory_grow": ("wasmCWriteMemoryGrowExpr", GENERIC),
+    "dispatch": ("wasmCWriteFunctionCode", [("nop", ["DISP=0"]), ("drop", ["DISP=1"]), ("unreachable_then_dead", ["DISP=2"]), ("br_then_dead", ["DISP=3"]), ("dead_until_else", ["DISP=4"]), ("return", ["DISP=5"])]),
     "ignored": ("wasmCWriteLocalGetExpr", [("local_get", ["IGN_WHICH=0"]), ("local_set", ["IGN_WHICH=1"]), ("local_tee", ["IGN_WHICH=2"]), ("const", ["IGN_WHICH=3"])]),
 }
-ALL_VARIANTS_IN_QUICK = {"ignored", "br", "br_if"}
+SRC = {"dispatch": "e_dispatch.c", "global_get": "e_more.c", "global_set": "e_more.c", "memory_size": "e_more.c", "memory_grow": "e_more.c"}
+ALL_VARIANTS_IN_QUICK = {"ignored", "br", "br_if", "dispatch"}
 EXTRA_FUNCS = {
     "load": ["c.c:wasmCWriteStringMemoryUse"], "store": ["c.c:wasmCWriteStringMemoryUse"],
     "local_get": ["module.h:wasmModuleFunctionGetLocalType", "locals.h:wasmLocalsDeclarationsGetType", "instruction.c:wasmLocalInstructionRead", "leb128.h:leb128ReadU32", "c.c:wasmCWriteStringLocalName"],
     "local_get_invalid": ["module.h:wasmModuleFunctionGetLocalType", "locals.h:wasmLocalsDeclarationsGetType"],
     "local_assign": ["module.h:wasmModuleFunctionGetLocalType", "locals.h:wasmLocalsDeclarationsGetType", "instruction.c:wasmLocalInstructionRead", "c.c:wasmCWriteStringLocalName"],
     "ignored": ["c.c:wasmCWriteLocalAssignmentExpr", "c.c:wasmCWriteConstExpr", "instruction.c:wasmLocalInstructionRead", "instruction.c:wasmConstInstructionRead"],
+    "dispatch": ["c.c:wasmCWriteGoto", "c.c:wasmCWriteBranchExpr", "opcode.h:wasmOpcodeRead"],
     "br": ["c.c:wasmCWriteGoto", "labelstack.h:wasmLabelStackGetTopIndex", "instruction.c:wasmBranchInstructionRead", "c.c:wasmCWriteStringLabelName"],
     "br_if": ["c.c:wasmCWriteGoto", "labelstack.h:wasmLabelStackGetTopIndex", "instruction.c:wasmBranchInstructionRead", "c.c:wasmCWriteStringLabelName"],
+    "global_get": ["module.h:wasmModuleGetGlobalType", "c.c:wasmCWriteStringGlobalUse", "instruction.c:wasmGlobalInstructionRead"],
+    "global_set": ["module.h:wasmModuleGetGlobalType", "c.c:wasmCWriteStringGlobalUse", "instruction.c:wasmGlobalInstructionRead"],
+    "memory_size": ["c.c:wasmCWriteStringMemoryUse", "instruction.c:wasmMemoryInstructionRead"], "memory_grow": ["c.c:wasmCWriteStringMemoryUse", "instruction.c:wasmMemoryInstructionRead"],
     "call": ["module.h:wasmModuleGetFunctionType", "c.c:wasmCWriteStringFunctionUse", "instruction.c:wasmCallInstructionRead"],
     "call_indirect": ["c.c:wasmCWriteStringTableUse", "c.c:wasmCWriteParameters", "c.c:wasmCGetReturnType", "instruction.c:wasmCallIndirectInstructionRead"],
     "const": ["instruction.c:wasmConstInstructionRead", "leb128.h:leb128ReadI32", "leb128.h:leb128ReadI64", "c.c:wasmCWriteLiteral"],
@@ -57,9 +65,9 @@ def expr_jobs(ctx, which, solver="sat"):
             for pr in (0, 1):
                 if ctx.tier == "quick" and (pr or (vi > 1 and nm not in ALL_VARIANTS_IN_QUICK)):
                     continue
-                jobs.append(ejob(ctx, "E.h.%s%s%s" % (nm, suf, ".pretty" if pr else ""), "e_expr.c", "h_" + nm,
+                jobs.append(ejob(ctx, "E.h.%s%s%s" % (nm, suf, ".pretty" if pr else ""), SRC.get(nm, "e_expr.c"), "h_" + nm,
                                  ["c.c:" + fn] + COMMON + EXTRA_FUNCS.get(nm, []), defines=["PRETTY=%d" % pr, "INDENT=%d" % (2 if pr else 0)] + vdefs,
-                                 flags=["--unwind", "12", "--unwinding-assertions"], solver=solver,
+                                 flags=["--unwind", "24", "--unwinding-assertions"], solver=solver,
                                  info=dict(layer="E", note="symbolic stack height h <= 2^24, symbolic operand and context types; "
                                            "array.c growth enters through its contract (job A.ensure_capacity)")))
     jobs += grow_jobs(ctx, [4])
